@@ -1,6 +1,7 @@
 import Proofs.C14.Desc3
 import Proofs.C14.Bad
 import Proofs.C14.Get
+import Proofs.C14.Total
 /-! C14 proofs: zone tiling, the sentinel witness, non-vacuity data. (Parts: `Proofs/C14/*.lean`.) -/
 namespace PfC14
 open C14 Ring
